@@ -161,7 +161,7 @@ CHECKS["C06"] = (
     "(falsy members included) and every Dict[str,int] over keys {'', 'a', 'b'} x every element helper x every addressing mode and "
     "index in [-len-1, len+1] x in-place/copy. Random part: histories over generated classes with list/dict/set/KeyedList/KeyedSet "
     "attributes of scalar, spec and keyed-spec elements. After each call the attribute content must equal the model (order included), "
-    "all other attributes must be untouched, a missing target must raise IndexError/KeyError/ValueError.",
+    "all other attributes must be untouched, a missing target must raise IndexError/KeyError/ValueError. Every KeyedList result must also enumerate the identical elements through keys()/l[k] and items() in iteration order.",
     "Trusted: the container model in checks/c06.py. UNSPECIFIED cases are counted, not judged.",
     "DESIGN.md §3 C06",
 )
